@@ -296,7 +296,11 @@ func (eng *Engine) VerifyFunc(f *ssa.Function) (rep *FuncReport) {
 				rep.Error = u.msg
 				return
 			}
-			panic(r)
+			if os.Getenv("GOVC_PANIC") != "" {
+				panic(r)
+			}
+			// an internal failure of the generator on this function: the function is not analysed (reported as an engine error, never as "verified")
+			rep.Error = fmt.Sprintf("internal error of the generator: %v", r)
 		}
 	}()
 	st, args := ex.newEntryState(f)
